@@ -402,6 +402,8 @@ func scenarios() []scenario {
 		{name: "S2-insert-vs-remove-entrypoint", m: 1, pre: []opSpec{I(0, 0, 1), I(1, 1, 0)}, threads: [][]opSpec{{I(2, 2, 1)}, {R(0)}}},
 		{name: "S3-remove-linked-neighbours-vs-search", m: 2, pre: []opSpec{I(0, 0, 0), I(1, 1, 0), I(2, 2, 0)}, threads: [][]opSpec{{R(0)}, {R(1)}, {S}}, maxQ: 2},
 		{name: "S4a-two-inserts-into-empty-index", m: 1, threads: [][]opSpec{{I(0, 0, 1)}, {I(1, 1, 2)}}},
+		{name: "S4d-two-inserts-into-empty-index-then-remove-and-search", m: 1, threads: [][]opSpec{{I(0, 0, 1), S}, {I(1, 1, 2), R(1), S}}},
+		{name: "S4e-two-inserts-into-empty-index-then-remove-the-other", m: 1, threads: [][]opSpec{{I(0, 0, 0), R(1), S}, {I(1, 1, 0)}}},
 		{name: "S4b-two-high-inserts-into-one-vertex-index", m: 1, pre: []opSpec{I(2, 2, 0)}, threads: [][]opSpec{{I(0, 0, 1)}, {I(1, 1, 2)}}},
 		{name: "S4c-three-inserts-into-empty-index", m: 1, threads: [][]opSpec{{I(0, 0, 0)}, {I(1, 1, 0)}, {I(2, 2, 1)}}, maxQ: 2},
 		{name: "S5-single-writer-vs-readers", m: 1, heur: true, pre: []opSpec{I(0, 0, 0), I(1, 1, 0)}, threads: [][]opSpec{{I(2, 2, 0), R(0)}, {S}, {G(2), L}}, maxQ: 2},
